@@ -7,10 +7,10 @@ from .poly import NormalFormLimit
 from .core import SReal, SBool
 from . import symbolic as sy
 from .symbolic import SymEnv, SymChecker, Oblig, Budget
-from .api import load_contracts, PathAbort, Raised, cfg_str, is_engine_exc
+from .api import load_contracts, PathAbort, Raised, cfg_str, is_engine_exc, raised_in_repo
 from .flat import flatten
 from . import native
-from .loader import load_repo
+from .loader import load_repo, REPO
 
 
 class JobTimeout(sc.EngineError):
@@ -102,6 +102,11 @@ def _run(cid, cfg_idx, seed, out, prefixes=None):
             # already failed on this path (e.g. a wrong length, after which indexing the result fails): then the path
             # simply ends there, the failed clause is what is reported
             if any(o.status.startswith('refuted') for o in ck.obligs):
+                status = 'aborted'
+            elif raised_in_repo(e, REPO):
+                # library code called by the contract body outside ck.call (building an operand) raised: an implicit
+                # call clause, decided like every other raise (witness of the path, replayed on the real code)
+                ck._concrete_fail('setup:noraise', 'raised %s: %s' % (type(e).__name__, str(e)[:200]))
                 status = 'aborted'
             else:
                 raise sc.EngineError('contract body raised %s: %s\n%s' % (type(e).__name__, e, traceback.format_exc()[-1500:]))
